@@ -1,12 +1,12 @@
 /*@unit {
  'kind': 'bounded', 'mode': 'plain',
- 'bound': 'nmemb <= NMAX (quick 5, thorough 6), element size 1 (unsigned char order) or 4 (int order), every rand() result (all pivot choices), arbitrary contents incl. duplicates',
+ 'bound': 'nmemb = NMEMB in 0..5 (quick), 0..6 (thorough), element size 1 (unsigned char order) or 4 (int order), every rand() result (all pivot choices), arbitrary contents incl. duplicates',
  'functions': ['qsort', 'swap'],
  'clauses': 'ISO 7.22.5.2: afterwards the array is sorted w.r.t. the comparator and is a permutation of its input (multiset equality through an arbitrary probe value); every access inside the array; compar only ever gets pointers to array elements or to the private pivot copy',
- 'params': {'SIZE': [1, 4], 'NMAX': [5]},
- 'params_thorough': {'SIZE': [1, 4], 'NMAX': [6]},
- 'unwind': 8,
- 'complete_unwinding': 'all loops and the recursion are bounded by nmemb <= NMAX; --unwinding-assertions prove 8 suffices',
+ 'params': {'SIZE': [1, 4], 'NMEMB': [0, 1, 2, 3, 4, 5]},
+ 'params_thorough': {'SIZE': [1, 4], 'NMEMB': [0, 1, 2, 3, 4, 5, 6]},
+ 'unwind': 8, 'cbmc_flags': ['--unwindset', 'vc_qsort:5'],
+ 'complete_unwinding': 'all loops and the recursion are bounded by nmemb; --unwinding-assertions prove that 8 iterations / 5 nested activations suffice',
  'timeout': 300,
  'witness': {'unwind': 8},
  'trusted': ['memcpy = the shim memcpy (compat/libc/string/memcpy.c, real code, byte loop unwound); rand() = arbitrary int per call'],
@@ -59,7 +59,7 @@ void harness(void)
     WIT_ARR(elem_t, content, 6);
     WIT_ARR(int, rnd, 8);
     WIT(elem_t, probe);
-    __CPROVER_assume(nmemb <= NMAX);
+    __CPROVER_assume(nmemb == NMEMB);
     elem_t *a = NEW_OBJ(nmemb * sizeof(elem_t));
     for (size_t i = 0; i < nmemb; i++)
         a[i] = content[i];
